@@ -91,6 +91,12 @@ type World struct {
 	DialStorms int
 	stormAt    int64
 	stormN     int
+	// CmdStorms counts commands slowed down by the command-storm brake: a client loop that keeps a server busy
+	// without ever blocking (an endless redirect loop with zero latency, say) would hold virtual time still for ever
+	// while the event log grows; after 5000 commands at one virtual instant every further one costs a virtual ms.
+	CmdStorms int
+	cmdAt     int64
+	cmdN      int
 }
 
 func NewWorld() *World {
@@ -490,7 +496,19 @@ func (c *Conn) readLoop() {
 		s.W.mu.Lock()
 		s.W.logLocked(Event{Server: s.Addr, Conn: c.ID, Kind: "recv", Req: req, Argv: argv, Arr: c.arrivals.arrival(ar.total - int64(r.Buffered()))})
 		hung := c.hung
+		if now := s.W.Since(); now == s.W.cmdAt {
+			s.W.cmdN++
+		} else {
+			s.W.cmdAt, s.W.cmdN = now, 0
+		}
+		cmdStorm := s.W.cmdN > 5000
+		if cmdStorm {
+			s.W.CmdStorms++
+		}
 		s.W.mu.Unlock()
+		if cmdStorm && !c.sleep(time.Millisecond) {
+			return
+		}
 		if hung {
 			continue
 		}
